@@ -171,6 +171,10 @@ def generate(seed: int, tier: str) -> dict:
         else:
             vals = [orr.choice([0.0, 1.0, 12.0, 100.0, 1200.0, 365.0, 0.5, -24.0, 1e6, 3.3]) for _ in range(k)]
         ops.append({"actor": pick(orr, writers), "do": ["set_input", v["name"], per, vals]})
+        if "memory" in knobs and n_sub > 1 and chance(orr, 0.3):
+            # F6: the k-th spill write of this long-period input fails (if it gets that
+            # far); the same input is then given again, the cause being gone
+            ops[-1]["io_fault"] = {"at": orr.randint(1, min(4, n_sub)), "kind": pick(orr, ["enospc", "enospc_torn"])}
     return {
         "format": 1,
         "property": PROPERTY,
@@ -269,7 +273,11 @@ def run(scn) -> Result:
             }
             from ..compile import tile
 
-            for step, op in enumerate(scn["ops"]):
+            queue = list(scn["ops"])
+            step = -1
+            while queue:
+                op = queue.pop(0)
+                step += 1
                 do = op["do"]
                 var = do[1]
                 spec = world.var_specs[var]
@@ -282,12 +290,57 @@ def run(scn) -> Result:
                     subs = sub_periods(period_text, spec["unit"])
                     before = _read(sim, env, var, subs)
                     # the model and the engine must agree on what is known (harness sanity)
+                    fault = op.get("io_fault") if (env.fs is not None and len(subs) > 1) else None
+                    if fault:
+                        env.fs.n["save"] = 0
+                        env.fs.fired = []
+                        env.fs.faults = {"save": {fault["at"]: {"kind": fault["kind"], "torn": 40}}}
                     out = apply_op(sim, world, do)
+                    fired = []
+                    if fault:
+                        fired = [list(map(str, f)) for f in env.fs.fired]
+                        env.fs.faults = {}
                     after = _read(sim, env, var, subs)
                     raised = out[0] == "exc"
-                    H.add(op["actor"], kind, do[1:], canon_outcome(out), [canon(after.get(s)) for s in subs[:40]])
+                    H.add(op["actor"], kind, do[1:], canon_outcome(out), [[canon(after.get(s)) for s in subs[:40]], fired] if fired else [canon(after.get(s)) for s in subs[:40]])
                     res.count("steps")
                     long = len(subs) > 1
+                    if fired and raised and isinstance(out[1], OSError):
+                        # C16.failed_write: the input could not be stored completely.  The
+                        # statement's guarantees for what was set before still hold, and
+                        # what this call did store is what it was to store; then the same
+                        # input is given again.
+                        res.count(f"fault:{fault['kind']}")
+                        res.count("clause:C16.failed_write")
+                        fmech = {"rule": spec["set_input"], "type": spec["type"], "unit": spec["unit"], "n_sub": len(subs), "n_known": len(known), "fired": fired}
+                        for s_ in known:
+                            if canon(before.get(s_)) != canon(after.get(s_)):
+                                res.violate("C16.untouched", step, op=do[:3], sub=s_, what="a value set before was changed by an input whose storing failed",
+                                            expected=canon(before.get(s_)), got=canon(after.get(s_)), **fmech)
+                                break
+                        else:
+                            scale = m.tol(array, [m.store[s_] for s_ in known])
+                            for s_ in unknown:
+                                got = after.get(s_)
+                                if got is None:
+                                    continue
+                                want = exp[s_][1]
+                                if exp[s_][0] == "exact" or spec["type"] == "int":
+                                    ok = (got.astype(numpy.float64) == numpy.asarray(want, dtype=numpy.float64)).all()
+                                else:
+                                    ok = (numpy.abs(got.astype(numpy.float64) - want) <= 1e-5 * scale).all()
+                                if not ok:
+                                    res.violate("C16.share" if spec["set_input"] == "divide" else "C16.repeat", step, op=do[:3], sub=s_,
+                                                what="an input whose storing failed left a wrong value behind", got=canon(got),
+                                                int_nondivisible=bool(spec["type"] == "int" and exp[s_][0] == "share" and (want != numpy.floor(want)).any()), **fmech)
+                                    break
+                        if any(after.get(s_) is not None for s_ in unknown):
+                            res.count("probe:failed_write_left_a_partial_spread")
+                        m.commit(after, unknown)
+                        queue.insert(0, {"actor": op["actor"], "do": do, "retry": True})
+                        continue
+                    if op.get("retry"):
+                        res.count("probe:retry_after_failed_write")
                     if long and known:
                         res.nontrivial = True
                         res.count("probe:long_with_preset")
